@@ -278,15 +278,11 @@ def uniform_refinement(image: darsia.Image, levels: int) -> darsia.Image:
                 slice_0 = i_slice(slice(0, None, 2))
                 slice_1 = i_slice(slice(1, None, 2))
 
-                # Determine weight for slice_0 elements
-                axis_length = image.img.shape[i]
-                weight_0 = 0.5 * np.ones(array[slice_0].shape)
-                half_axis_length = int(np.floor(axis_length) / 2)
-                double_axis_length = 2 * half_axis_length
-                if axis_length % 2 == 1:
-                    weight_0[i_slice(slice(double_axis_length, None))] = 1
+                # Number of complete pairs along the axis of the current array
+                axis_length = array.shape[i]
+                half_axis_length = axis_length // 2
 
-                # The weight for slice_1 is constant
+                # The weight for paired elements is constant
                 weight_1 = 0.5
 
                 # Weighted sum for coarsening
@@ -296,6 +292,10 @@ def uniform_refinement(image: darsia.Image, levels: int) -> darsia.Image:
                 array[i_slice(slice(0, half_axis_length))] += np.multiply(
                     weight_1, sub_array_1
                 )
+                if axis_length % 2 == 1:
+                    # The last element has no partner and keeps its full weight
+                    last = i_slice(slice(half_axis_length, None))
+                    array[last] = sub_array_0[last]
 
     # Return resized image
     meta = image.metadata()
